@@ -130,26 +130,29 @@ def check(repo: Repo, run: Run) -> None:
            facts={"exits": [(e[0], [sym.pretty(c)[:60] for c, _ in e[1]]) for e in outer.exits],
                   "test": sym.pretty(outer.test)[:100] if outer.test is not None else None}, line=outer.lineno)
 
-    # ------------------------------------------------------------------ R7 the tag scanner is an exact sliding window
+    # ------------------------------------------------------------------ R7 the tag scanner stops after the FIRST occurrence
+    from .. import scanner
     su = repo.function("kd_buf_parser", "seek_until")
-    srec = interp.run(mod, su)
-    rd, tag = param(su.args.args[0].arg), param(su.args.args[1].arg)
-    wl = [lr for lr in srec.loops.values() if lr.kind == "while"]
-    recognised = False
-    if len(wl) == 1 and wl[0].test is not None:
-        tst = wl[0].test
-        atom, pol = render.norm_bool(tst)
-        if atom.op == "cmp" and atom.a[0] == "==" and not pol and tag in (atom.a[1], atom.a[2]):
-            W = atom.a[1] if atom.a[2] == tag else atom.a[2]
-            init = T("call", (T("attr", (rd, "read")), (T("call", (T("builtin", ("len",)), (tag,), ())),), ()))
-            if W.op == "widen" and W.a[2] and W.a[2][0] == init:
-                # initial window = read(len(tag)); the update inside the loop must be window[1:] + read(1)
-                recognised = _window_update_ok(su, W.a[0])
-    if not recognised:
-        raise AnalysisError("seek_until is not the recognised exact scanner (window = read(len(tag)); while window != tag: "
-                            "window = window[1:] + read(1)): whether every tag is found cannot be decided for another algorithm")
-    run.ob("R7", MOD, "seek_until", "tags are located by an exact sliding-window scan", True,
-           facts={"form": "window = read(len(tag)); while window != tag: window = window[1:] + read(1)"})
+    SU = T("func", (f"{MOD}.seek_until",))
+    wanted = {}
+    for c in rec.calls:
+        if c.func == SU and len(c.args) == 2:
+            if c.args[1].op != "const" or not isinstance(c.args[1].a[0], bytes):
+                raise AnalysisError(f"seek_until is called with a tag that is not a constant: {sym.pretty(c.args[1])[:60]}")
+            nm = next((k for k, v in tags.items() if v == c.args[1].a[0]), repr(c.args[1].a[0]))
+            wanted[nm] = c.args[1].a[0]
+    if not wanted:
+        raise AnalysisError("anchor vanished: parse_v3 no longer locates its sections with seek_until(reader, <tag>)")
+    try:
+        verdicts = scanner.decide(interp, mod, su, wanted)
+    except scanner.Undecided as ex:
+        raise AnalysisError(f"seek_until is neither the exact sliding window nor a one-byte-per-iteration finite scanner: whether "
+                            f"every tag is found cannot be decided ({ex})")
+    for nm, v in sorted(verdicts.items()):
+        run.ob("R7", MOD, "seek_until", f"stops right after the first occurrence of {nm}", v.ok,
+               "" if v.ok else f"seek_until(reader, {nm}) {v.what}; stream (hex): {v.witness}",
+               facts={"decided_by": v.how, "configurations_explored": v.explored}, line=su.lineno,
+               witness=None if v.ok else f"a version-3 dump whose bytes before the section contain {v.witness}")
 
     # ------------------------------------------------------------------ R2 ordering
     log_call = T("attr", (T("class", ("pykdebugparser.os_log_event.OsLogEvent",)), "from_raw_log_event"))
